@@ -185,12 +185,24 @@ func TestTransferReplay(t *testing.T) {
 		for _, n := range cfg.ExpNames {
 			ek, _ := xferKinds(allNames[n] + bi)
 			expC[n] = NewBackend(ek, cache.Config{Name: "e" + n})
+
+			if bi%3 == 2 { // a name that is registered again: the later cache replaces the earlier one
+				retired := NewBackend(ek, cache.Config{Name: "retired-e" + n})
+				_ = retired.Write(context.Background(), []byte("retired-key"), "v1")
+				expT.AddCache(rn(n), wdr(retired))
+			}
+
 			expT.AddCache(rn(n), wdr(expC[n]))
 		}
 
 		for _, n := range cfg.ImpNames {
 			_, ik := xferKinds(allNames[n] + bi)
 			impC[n] = NewBackend(ik, cache.Config{Name: "i" + n})
+
+			if bi%3 == 1 {
+				impT.AddCache(rn(n), wdr(NewBackend(ik, cache.Config{Name: "retired-i" + n})))
+			}
+
 			impT.AddCache(rn(n), wdr(impC[n]))
 		}
 
